@@ -995,7 +995,7 @@ INFORMATIONAL = {
 def run(tier="quick", seed=0):
     t0 = time.time()
     quick = tier == "quick"
-    procs = 8 if quick else 16
+    procs = 16  # quick used 8: with 16 the quick tier keeps its margin under the 45 s budget when the machine is busy
     base_rng = rng(seed)
     with enc_mode("utf8"):
         _check_alphabet()
